@@ -29,7 +29,13 @@ func c37NewDeduplicator(period time.Duration) *deduplicator {
 	}
 }
 
-func c37Num(k string) int64 { n, _ := strconv.Atoi(strings.TrimPrefix(k, "k")); return int64(n) }
+func c37Num(k string) int64 {
+	n, err := strconv.Atoi(strings.TrimLeft(k, "kv"))
+	if err != nil {
+		panic("c37: bad model key " + k)
+	}
+	return int64(n)
+}
 
 func c37Targets() []kit.DedupTarget {
 	return []kit.DedupTarget{
